@@ -97,7 +97,7 @@ theorem inv1_init (N : Nat) : Inv1 N (init (tasks N)) := by
 
 macro "crash_simp1" " at " h:ident : tactic => `(tactic|
   simp [stepW, inWindow, step, cfgOf1, cfgEnd, findEv, evm, markEv, markRpL, tasks, qF1, Cfg.handler, Cfg.vol, Cfg.withVol,
-    Cfg.act, Cfg.crash, insertNat, rpm, onReply, advance, fuelOf, removeFirst, inDeadJoin, evStack, requestOf, batchKey] at $h:ident)
+    Cfg.act, Cfg.crash, insertNat, rpm, onReply, advance, fuelOf, removeFirst, inDeadJoin, evStack, requestOf, batchKey, evJids, evOwner, deadJid, dropEv, waitVisit, hasRecords] at $h:ident)
 
 theorem inv1_of_eq {N : Nat} {c d : Cfg} (h : Inv1 N d) (e : d = c) : Inv1 N c := e ▸ h
 
@@ -401,27 +401,27 @@ theorem inv1_progress (c : Cfg) (h : Inv1 N c) :
       | zero =>
         cases start
         · exact key (.ev id) (cfgEnd (id + 1) sent running) (by simp) (by simp [nextOp, cfgOf1, evm])
-            (by simp [step, inDeadJoin, evStack, requestOf, batchKey, cfgOf1, cfgEnd, findEv, evm, markEv, tasks, qF1, Cfg.handler, Cfg.vol, Cfg.withVol, Cfg.act, advance, fuelOf])
+            (by simp [step, inDeadJoin, evStack, requestOf, batchKey, evJids, evOwner, deadJid, dropEv, waitVisit, hasRecords, cfgOf1, cfgEnd, findEv, evm, markEv, tasks, qF1, Cfg.handler, Cfg.vol, Cfg.withVol, Cfg.act, advance, fuelOf])
             (by simp [mu1, cfgOf1, cfgEnd, evm, tasks, skLen])
         · exact key (.ev id) (cfgEnd (id + 1) sent (running + 1)) (by simp) (by simp [nextOp, cfgOf1, evm])
-            (by simp [step, inDeadJoin, evStack, requestOf, batchKey, cfgOf1, cfgEnd, findEv, evm, markEv, tasks, qF1, Cfg.handler, Cfg.vol, Cfg.withVol, Cfg.act, advance, fuelOf])
+            (by simp [step, inDeadJoin, evStack, requestOf, batchKey, evJids, evOwner, deadJid, dropEv, waitVisit, hasRecords, cfgOf1, cfgEnd, findEv, evm, markEv, tasks, qF1, Cfg.handler, Cfg.vol, Cfg.withVol, Cfg.act, advance, fuelOf])
             (by simp [mu1, cfgOf1, cfgEnd, evm, tasks, skLen])
       | succ m =>
         cases start
         · exact key (.ev id) (cfgOf1 id (m + 1) false false false sent running .armedNew) (by simp)
             (by simp [nextOp, cfgOf1, evm])
-            (by simp [step, inDeadJoin, evStack, requestOf, batchKey, cfgOf1, findEv, evm, markEv, tasks, qF1, Cfg.handler, Cfg.vol, Cfg.withVol, Cfg.act, insertNat])
+            (by simp [step, inDeadJoin, evStack, requestOf, batchKey, evJids, evOwner, deadJid, dropEv, waitVisit, hasRecords, cfgOf1, findEv, evm, markEv, tasks, qF1, Cfg.handler, Cfg.vol, Cfg.withVol, Cfg.act, insertNat])
             (by simp [mu1, cfgOf1, evm])
         · exact key (.ev id) (cfgOf1 id (m + 1) true false false sent (running + 1) .armedNew) (by simp)
             (by simp [nextOp, cfgOf1, evm])
-            (by simp [step, inDeadJoin, evStack, requestOf, batchKey, cfgOf1, findEv, evm, markEv, tasks, qF1, Cfg.handler, Cfg.vol, Cfg.withVol, Cfg.act, insertNat])
+            (by simp [step, inDeadJoin, evStack, requestOf, batchKey, evJids, evOwner, deadJid, dropEv, waitVisit, hasRecords, cfgOf1, findEv, evm, markEv, tasks, qF1, Cfg.handler, Cfg.vol, Cfg.withVol, Cfg.act, insertNat])
             (by simp [mu1, cfgOf1, evm])
     | armedNew =>
       have hm1 := hm (by simp)
       obtain ⟨m, rfl⟩ : ∃ k, m = k + 1 := ⟨m - 1, by omega⟩
       exact key (.tm id) (cfgOf1 id (m + 1) start false false (sent ++ [id]) running .waiting) (by simp)
         (by simp [nextOp, cfgOf1])
-        (by simp [step, inDeadJoin, evStack, requestOf, batchKey, cfgOf1, findEv, evm, tasks, qF1, Cfg.handler, Cfg.vol, Cfg.withVol, Cfg.act, insertNat, rpm])
+        (by simp [step, inDeadJoin, evStack, requestOf, batchKey, evJids, evOwner, deadJid, dropEv, waitVisit, hasRecords, cfgOf1, findEv, evm, tasks, qF1, Cfg.handler, Cfg.vol, Cfg.withVol, Cfg.act, insertNat, rpm])
         (by simp [mu1, cfgOf1, evm])
     | waiting =>
       have hm1 := hm (by simp)
@@ -429,45 +429,45 @@ theorem inv1_progress (c : Cfg) (h : Inv1 N c) :
       cases m with
       | zero =>
         exact key (.rp id) (cfgEnd (id + 1) sent running) (by simp) (by simp [nextOp, cfgOf1, evm, rpm])
-          (by simp [step, inDeadJoin, evStack, requestOf, batchKey, cfgOf1, cfgEnd, findEv, evm, markRpL, tasks, qF1, Cfg.handler, Cfg.vol, Cfg.withVol, Cfg.act, rpm, onReply, advance, fuelOf, removeFirst])
+          (by simp [step, inDeadJoin, evStack, requestOf, batchKey, evJids, evOwner, deadJid, dropEv, waitVisit, hasRecords, cfgOf1, cfgEnd, findEv, evm, markRpL, tasks, qF1, Cfg.handler, Cfg.vol, Cfg.withVol, Cfg.act, rpm, onReply, advance, fuelOf, removeFirst])
           (by simp [mu1, cfgOf1, cfgEnd, evm, tasks, skLen])
       | succ m =>
         exact key (.rp id) (cfgOf1 (id + 1) (m + 1) false false false sent running .fresh) (by simp) (by simp [nextOp, cfgOf1, evm, rpm])
-          (by simp [step, inDeadJoin, evStack, requestOf, batchKey, cfgOf1, findEv, evm, markRpL, tasks, qF1, Cfg.handler, Cfg.vol, Cfg.withVol, Cfg.act, rpm, onReply, advance, fuelOf, removeFirst])
+          (by simp [step, inDeadJoin, evStack, requestOf, batchKey, evJids, evOwner, deadJid, dropEv, waitVisit, hasRecords, cfgOf1, findEv, evm, markRpL, tasks, qF1, Cfg.handler, Cfg.vol, Cfg.withVol, Cfg.act, rpm, onReply, advance, fuelOf, removeFirst])
           (by simp [mu1, cfgOf1, evm, tasks, skLen, skLen_tasks]; omega)
     | crashed =>
       have hm1 := hm (by simp)
       obtain ⟨m, rfl⟩ : ∃ k, m = k + 1 := ⟨m - 1, by omega⟩
       cases start
       · exact key (.ev id) (cfgOf1 id (m + 1) false true rr sent running .armedRe) (by simp) (by simp [nextOp, cfgOf1, evm])
-          (by simp [step, inDeadJoin, evStack, requestOf, batchKey, cfgOf1, findEv, evm, markEv, tasks, qF1, Cfg.handler, Cfg.vol, Cfg.withVol, Cfg.act, insertNat, rpm])
+          (by simp [step, inDeadJoin, evStack, requestOf, batchKey, evJids, evOwner, deadJid, dropEv, waitVisit, hasRecords, cfgOf1, findEv, evm, markEv, tasks, qF1, Cfg.handler, Cfg.vol, Cfg.withVol, Cfg.act, insertNat, rpm])
           (by simp [mu1, cfgOf1, evm])
       · exact key (.ev id) (cfgOf1 id (m + 1) true true rr sent (running + 1) .armedRe) (by simp) (by simp [nextOp, cfgOf1, evm])
-          (by simp [step, inDeadJoin, evStack, requestOf, batchKey, cfgOf1, findEv, evm, markEv, tasks, qF1, Cfg.handler, Cfg.vol, Cfg.withVol, Cfg.act, insertNat, rpm])
+          (by simp [step, inDeadJoin, evStack, requestOf, batchKey, evJids, evOwner, deadJid, dropEv, waitVisit, hasRecords, cfgOf1, findEv, evm, markEv, tasks, qF1, Cfg.handler, Cfg.vol, Cfg.withVol, Cfg.act, insertNat, rpm])
           (by simp [mu1, cfgOf1, evm])
     | armedRe =>
       have hm1 := hm (by simp)
       obtain ⟨m, rfl⟩ : ∃ k, m = k + 1 := ⟨m - 1, by omega⟩
       exact key (.tm id) (cfgOf1 id (m + 1) start true rr sent running .waiting) (by simp)
         (by simp [nextOp, cfgOf1])
-        (by simp [step, inDeadJoin, evStack, requestOf, batchKey, cfgOf1, findEv, evm, tasks, qF1, Cfg.handler, Cfg.vol, Cfg.withVol, Cfg.act, insertNat, rpm])
+        (by simp [step, inDeadJoin, evStack, requestOf, batchKey, evJids, evOwner, deadJid, dropEv, waitVisit, hasRecords, cfgOf1, findEv, evm, tasks, qF1, Cfg.handler, Cfg.vol, Cfg.withVol, Cfg.act, insertNat, rpm])
         (by simp [mu1, cfgOf1, evm])
     | orphan =>
       have hm1 := hm (by simp)
       obtain ⟨m, rfl⟩ : ∃ k, m = k + 1 := ⟨m - 1, by omega⟩
       cases start
       · exact key (.ev id) (cfgOf1 id (m + 1) false true rr sent running .armedOrph) (by simp) (by simp [nextOp, cfgOf1, evm])
-          (by simp [step, inDeadJoin, evStack, requestOf, batchKey, cfgOf1, findEv, evm, markEv, tasks, qF1, Cfg.handler, Cfg.vol, Cfg.withVol, Cfg.act, insertNat, rpm])
+          (by simp [step, inDeadJoin, evStack, requestOf, batchKey, evJids, evOwner, deadJid, dropEv, waitVisit, hasRecords, cfgOf1, findEv, evm, markEv, tasks, qF1, Cfg.handler, Cfg.vol, Cfg.withVol, Cfg.act, insertNat, rpm])
           (by simp [mu1, cfgOf1, evm])
       · exact key (.ev id) (cfgOf1 id (m + 1) true true rr sent (running + 1) .armedOrph) (by simp) (by simp [nextOp, cfgOf1, evm])
-          (by simp [step, inDeadJoin, evStack, requestOf, batchKey, cfgOf1, findEv, evm, markEv, tasks, qF1, Cfg.handler, Cfg.vol, Cfg.withVol, Cfg.act, insertNat, rpm])
+          (by simp [step, inDeadJoin, evStack, requestOf, batchKey, evJids, evOwner, deadJid, dropEv, waitVisit, hasRecords, cfgOf1, findEv, evm, markEv, tasks, qF1, Cfg.handler, Cfg.vol, Cfg.withVol, Cfg.act, insertNat, rpm])
           (by simp [mu1, cfgOf1, evm])
     | armedOrph =>
       have hm1 := hm (by simp)
       obtain ⟨m, rfl⟩ : ∃ k, m = k + 1 := ⟨m - 1, by omega⟩
       exact key (.tm id) (cfgOf1 id (m + 1) start true rr sent running .matched) (by simp)
         (by simp [nextOp, cfgOf1])
-        (by simp [step, inDeadJoin, evStack, requestOf, batchKey, cfgOf1, findEv, evm, tasks, qF1, Cfg.handler, Cfg.vol, Cfg.withVol, Cfg.act, insertNat, rpm])
+        (by simp [step, inDeadJoin, evStack, requestOf, batchKey, evJids, evOwner, deadJid, dropEv, waitVisit, hasRecords, cfgOf1, findEv, evm, tasks, qF1, Cfg.handler, Cfg.vol, Cfg.withVol, Cfg.act, insertNat, rpm])
         (by simp [mu1, cfgOf1, evm])
     | matched =>
       have hm1 := hm (by simp)
@@ -475,11 +475,11 @@ theorem inv1_progress (c : Cfg) (h : Inv1 N c) :
       cases m with
       | zero =>
         exact key .tick (cfgEnd (id + 1) sent running) (by simp) (by simp [nextOp, cfgOf1, evm, rpm])
-          (by simp [step, inDeadJoin, evStack, requestOf, batchKey, cfgOf1, cfgEnd, findEv, evm, tasks, qF1, Cfg.handler, Cfg.vol, Cfg.withVol, Cfg.act, rpm, onReply, advance, fuelOf, removeFirst])
+          (by simp [step, inDeadJoin, evStack, requestOf, batchKey, evJids, evOwner, deadJid, dropEv, waitVisit, hasRecords, cfgOf1, cfgEnd, findEv, evm, tasks, qF1, Cfg.handler, Cfg.vol, Cfg.withVol, Cfg.act, rpm, onReply, advance, fuelOf, removeFirst])
           (by simp [mu1, cfgOf1, cfgEnd, evm, tasks, skLen])
       | succ m =>
         exact key .tick (cfgOf1 (id + 1) (m + 1) false false false sent running .fresh) (by simp) (by simp [nextOp, cfgOf1, evm, rpm])
-          (by simp [step, inDeadJoin, evStack, requestOf, batchKey, cfgOf1, findEv, evm, tasks, qF1, Cfg.handler, Cfg.vol, Cfg.withVol, Cfg.act, rpm, onReply, advance, fuelOf, removeFirst])
+          (by simp [step, inDeadJoin, evStack, requestOf, batchKey, evJids, evOwner, deadJid, dropEv, waitVisit, hasRecords, cfgOf1, findEv, evm, tasks, qF1, Cfg.handler, Cfg.vol, Cfg.withVol, Cfg.act, rpm, onReply, advance, fuelOf, removeFirst])
           (by simp [mu1, cfgOf1, evm, tasks, skLen, skLen_tasks]; omega)
 
 theorem inv1_nodiv (c : Cfg) (h : Inv1 N c) : c.diverged = false := by
